@@ -28,6 +28,49 @@ Theorem C20_statement : forall k, valid_name (fst k) ->
   forall c, In c (use_statement k) -> In c alphabet \/ c = 32%N \/ c = dquote.
 Proof. exact statement_ok. Qed.
 
+(* ---- USE statement texts seen by the server (second sentence, end to end) ------------------------------- *)
+
+(* [idents] (the identifiers of a text = its maximal runs of alphabet characters) is determined by three
+   equations: the empty text, a single run, and two texts joined by a non-alphabet character *)
+Theorem C20_idents_equations :
+  idents [] = [] /\
+  (forall i, i <> [] -> forallb is_alpha i = true -> idents i = [i]) /\
+  (forall a x b, is_alpha x = false -> idents (a ++ x :: b) = idents a ++ idents b).
+Proof. exact (conj idents_nil (conj idents_run idents_sep)). Qed.
+
+(* the text the model sends for a valid name consists of benign characters and its identifiers are the
+   keyword and the name, nothing else - in both quoting modes *)
+Theorem C20_statement_idents : forall k, valid_name (fst k) ->
+  idents (use_statement k) = [kw_use; fst k] /\ forallb benign (use_statement k) = true.
+Proof. exact statement_idents. Qed.
+
+(* so the model's text of a requested valid name is judged TOk, and it would pass the harmlessness test
+   even if it were compared with another requested name's text: the model never produces a `viol` *)
+Theorem C20_statement_never_viol : forall callk k, valid_name (fst k) -> In k callk ->
+  text_verdict callk (use_statement k) = TOk /\ harmless (map fst callk) (use_statement k) = true.
+Proof.
+  exact (fun callk k Hv Hin => conj (text_verdict_model callk k Hin)
+                                    (statement_harmless k (map fst callk) Hv (in_map fst callk k Hin))).
+Qed.
+
+(* what [harmless] means *)
+Theorem C20_text_harmless_iff : forall req t,
+  harmless req t = true <->
+  (forall c, In c t -> In c alphabet \/ c = 32%N \/ c = 34%N \/ c = 59%N) /\
+  exists kw rest, idents t = kw :: rest /\ eq_ci kw kw_use = true /\ rest <> [] /\ forall i, In i rest -> In i req.
+Proof. exact harmless_iff. Qed.
+
+(* the driver's `viol statement-text`, declaratively: the text is not the model's text of any requested
+   valid name, and it carries a character other than alphabet / blank / quote / semicolon, or its
+   identifiers are not "USE followed by at least one name, all of them requested valid names" *)
+Theorem C20_text_viol_iff : forall callk t,
+  text_verdict callk t = TViol <->
+  (forall k, In k callk -> t <> use_statement k) /\
+  ((exists c, In c t /\ ~ (In c alphabet \/ c = 32%N \/ c = 34%N \/ c = 59%N)) \/
+   ~ (exists kw rest, idents t = kw :: rest /\ eq_ci kw kw_use = true /\ rest <> [] /\
+                      forall i, In i rest -> exists k, In k callk /\ fst k = i)).
+Proof. exact text_viol_iff. Qed.
+
 (* ---- the check of the server's answer ------------------------------------------------------ *)
 
 (* a USE counts as successful on a connection exactly when the server answered SetKeyspace with
@@ -120,6 +163,24 @@ Theorem C20_after_success_exact : forall k0 ls1 s1 raw cs s2 ls2 s3 a c,
   (forall k', In k' (told s3 c) -> eq_ci (fst k') raw = true -> canon k' = canon (raw, cs)) ->
   wire s3 c = [] /\ acked s3 c = Some (canon (raw, cs)).
 Proof. exact after_success_exact. Qed.
+
+(* an answered USE: when the server's answer passes the driver's check, the server-side keyspace of that
+   connection matches the requested one at that moment, and the frame leaves the wire *)
+Theorem C20_ack_ok_matches : forall s c rep s' u k rest,
+  step s (UseAck c rep) = Some s' -> wire s c = (u, k) :: rest -> verify_result k rep = VOk ->
+  matchesb s' c k = true /\ wire s' c = rest.
+Proof. exact ack_ok_matches. Qed.
+
+(* progress (safety-style liveness): in every reachable state a pending pool-level use never waits on
+   nothing - it has a USE left to submit, or a submitted USE sits on the wire of a live connection (so an
+   answer or the connection's death can still come), or all its connections are done and the answer to
+   the caller is enabled *)
+Theorem C20_pool_progress : forall k0 s r,
+  reachable k0 s -> In r (pending s) ->
+  (exists c s', In c (cov r) /\ step s (UseSend (uid r) c) = Some s') \/
+  (exists c s', In c (cov r) /\ stat r c = Sent /\ step s (UseAck c RError) = Some s') \/
+  (exists s', step s (UseDone (uid r) (answer_of r)) = Some s').
+Proof. exact pool_progress. Qed.
 
 (* the pool of a node discovered later is constructed with the keyspace; without any use request it
    never shows a live connection that is not in that keyspace *)
@@ -215,8 +276,8 @@ Theorem C20_accept_sound : forall k0 t1 u k t2 t3 q t4 x t5,
 Proof. exact accept_sound. Qed.
 
 (* the driver says `viol request-after-successful-use-in-other-keyspace` only when [prop_violb] holds on the
-   trace (its other scenario violations, `viol statement-text` and `viol invalid-name-accepted`, are decided by
-   hand-written OCaml over [use_statement] / [valid_nameb]).  [prop_violb] is the
+   trace (its other scenario violations: `viol statement-text` = [text_verdict] = TViol, see C20_text_viol_iff;
+   `viol invalid-name-accepted` = [valid_nameb] = false, see C20_valid_nameb).  [prop_violb] is the
    declarative property: sound (every `viol` rests on the decomposition of C20_accept_sound with a wrong
    keyspace), complete for traces in which the call does not return twice, and never accepted *)
 Theorem C20_viol_sound : forall tr, prop_violb tr = true -> decl_viol tr.
@@ -373,6 +434,23 @@ Example C20_ex_session_err :
   end = ([(0, false)], None).
 Proof. vm_compute. reflexivity. Qed.
 
+(* anchors of the statement-text verdict: the model's texts, a reformatted text, texts that smuggle something in *)
+Example C20_ex_anchor_texts :
+  let callk := [(ex_ks, false); ([75; 115]%N, true)] in
+  text_verdict callk [85; 83; 69; 32; 107; 115]%N = TOk /\
+  text_verdict callk [85; 83; 69; 32; 34; 75; 115; 34]%N = TOk /\
+  text_verdict callk [117; 115; 101; 32; 107; 115]%N = TDiff /\
+  text_verdict callk [85; 83; 69; 32; 107; 115; 59]%N = TDiff /\
+  text_verdict callk [85; 83; 69; 32; 107; 115; 59; 100; 114; 111; 112]%N = TViol /\
+  text_verdict callk [85; 83; 69; 32; 107; 115; 45; 45]%N = TViol /\
+  text_verdict callk [85; 83; 69; 32; 110; 111; 112; 101]%N = TViol /\
+  text_verdict callk [85; 83; 69; 32]%N = TViol /\
+  text_verdict callk [107; 115]%N = TViol /\
+  text_verdict [] [85; 83; 69; 32; 107; 115]%N = TViol /\
+  idents [85; 83; 69; 32; 34; 75; 115; 34; 59; 120]%N = [[85; 83; 69]; [75; 115]; [120]]%N /\
+  texts_verdict callk [[85; 83; 69; 32; 107; 115]; [117; 115; 101; 32; 107; 115]; [107; 115]]%N = (TDiff, [117; 115; 101; 32; 107; 115]%N).
+Proof. repeat split; vm_compute; reflexivity. Qed.
+
 (* anchors of the definitions the driver evaluates (accepting AND rejecting inputs) *)
 Example C20_ex_anchor_names :
   valid_nameb [107; 95; 57]%N = true /\ valid_nameb [] = false /\ valid_nameb [107; 59]%N = false /\
@@ -414,6 +492,13 @@ Proof. repeat split; vm_compute; reflexivity. Qed.
 Print Assumptions C20_name.
 Print Assumptions C20_name_err.
 Print Assumptions C20_statement.
+Print Assumptions C20_idents_equations.
+Print Assumptions C20_statement_idents.
+Print Assumptions C20_statement_never_viol.
+Print Assumptions C20_text_harmless_iff.
+Print Assumptions C20_text_viol_iff.
+Print Assumptions C20_ack_ok_matches.
+Print Assumptions C20_pool_progress.
 Print Assumptions C20_verify_result.
 Print Assumptions C20_verify_honest.
 Print Assumptions C20_aggregate_ok.
